@@ -31,11 +31,12 @@ type ghReq struct {
 
 // nodeEv is one entry of the node's history (received and sent messages in order).
 type nodeEv struct {
-	Sent bool
-	Kind string // getheaders | sendheaders | headers | inv | <other command>
-	Idx  []int  // sent headers / inv: tree indices
-	GH   *ghReq // received getheaders
-	Multi bool  // sent inv: carried already announced blocks and non-block entries besides the new blocks
+	Sent  bool
+	Kind  string // getheaders | sendheaders | headers | inv | <other command>
+	Idx   []int  // sent headers / inv: tree indices
+	GH    *ghReq // received getheaders
+	Multi bool   // sent inv: carried already announced blocks and non-block entries besides the new blocks
+	Seq   int64  // global order of recording (all nodes)
 }
 
 type scriptNode struct {
@@ -247,7 +248,7 @@ func (n *scriptNode) readLoop() {
 			n.mu.Lock()
 			n.recvGH = append(n.recvGH, req)
 			n.recvLog = append(n.recvLog, "getheaders")
-			n.hist = append(n.hist, nodeEv{Kind: "getheaders", GH: &req})
+			n.hist = append(n.hist, nodeEv{Seq: atomic.AddInt64(&evSeq, 1), Kind: "getheaders", GH: &req})
 			atomic.AddInt64(&n.traffic, 1)
 			if n.auto {
 				d := time.Duration(n.delayRng.Intn(2000)) * time.Microsecond
@@ -267,13 +268,13 @@ func (n *scriptNode) readLoop() {
 			n.mu.Lock()
 			n.gotSendH = true
 			n.recvLog = append(n.recvLog, "sendheaders")
-			n.hist = append(n.hist, nodeEv{Kind: "sendheaders"})
+			n.hist = append(n.hist, nodeEv{Seq: atomic.AddInt64(&evSeq, 1), Kind: "sendheaders"})
 			atomic.AddInt64(&n.traffic, 1)
 			n.mu.Unlock()
 		default:
 			n.mu.Lock()
 			n.recvLog = append(n.recvLog, m.Command())
-			n.hist = append(n.hist, nodeEv{Kind: m.Command()})
+			n.hist = append(n.hist, nodeEv{Seq: atomic.AddInt64(&evSeq, 1), Kind: m.Command()})
 			atomic.AddInt64(&n.traffic, 1)
 			n.mu.Unlock()
 		}
@@ -334,7 +335,7 @@ func (n *scriptNode) sendHeaders(idxs []int) error {
 		}
 	}
 	n.sentLog = append(n.sentLog, "headers "+compactInts(idxs))
-	n.hist = append(n.hist, nodeEv{Sent: true, Kind: "headers", Idx: append([]int{}, idxs...)})
+	n.hist = append(n.hist, nodeEv{Seq: atomic.AddInt64(&evSeq, 1), Sent: true, Kind: "headers", Idx: append([]int{}, idxs...)})
 	n.mu.Unlock()
 	return n.write(m)
 }
@@ -347,7 +348,7 @@ func (n *scriptNode) sendInv(idxs []int) error {
 	}
 	n.mu.Lock()
 	n.sentLog = append(n.sentLog, "inv "+compactInts(idxs))
-	n.hist = append(n.hist, nodeEv{Sent: true, Kind: "inv", Idx: append([]int{}, idxs...)})
+	n.hist = append(n.hist, nodeEv{Seq: atomic.AddInt64(&evSeq, 1), Sent: true, Kind: "inv", Idx: append([]int{}, idxs...)})
 	n.mu.Unlock()
 	return n.write(m)
 }
@@ -375,7 +376,7 @@ func (n *scriptNode) sendInvEntries(es []invEntry) error {
 	}
 	n.mu.Lock()
 	n.sentLog = append(n.sentLog, "invx "+compactInts(blocks))
-	n.hist = append(n.hist, nodeEv{Sent: true, Kind: "inv", Idx: blocks, Multi: true})
+	n.hist = append(n.hist, nodeEv{Seq: atomic.AddInt64(&evSeq, 1), Sent: true, Kind: "inv", Idx: blocks, Multi: true})
 	n.mu.Unlock()
 	return n.write(m)
 }
@@ -454,6 +455,10 @@ func (n *scriptNode) closedByRemote() bool {
 }
 
 var pingSeq uint64
+
+// evSeq numbers history entries across all nodes (an approximation of the order in which the service saw them; exact in
+// serial runs, where the harness sends one message at a time)
+var evSeq int64
 
 // pingWait sends a ping and waits for its pong: when it returns true the remote reader has
 // handled everything this node sent before, and everything the remote queued for this node
